@@ -572,8 +572,8 @@ func RunDrv(s DrvSession) mon.Result {
 			return bad("c02/driver-result-mismatch:"+s.Version, " got Result %q\nwant        %q\nraw handed to the decoder: %s", clipS(r.Result), clipS(want), clipQ(r.RawResult))
 		}
 		if carries && r.Failed == nil {
-			k := "c02/failed-unset"
-			if !anyMarkerIn(rp.frame(s.Version)) {
+			k := "c02/failed-unset" + errFormClass([]byte(rp.Payload))
+			if !anyMarkerIn(rp.frame(s.Version)) && anyMarkerIn([]byte(rp.Payload)) {
 				k = "c02/failed-unset:markers-split-by-chunk-headers"
 			}
 			soft = append(soft, bad(k+":"+s.Version, "payload carries an rpc-error (%s) but Failed is nil", rp.Variant))
